@@ -35,19 +35,19 @@ func genFamily(name string, f *gen.Family, lists []gen.List) *FamilySpec {
 // CFCorpus: hand-picked programs beyond the enumerated sizes — the minimal program of every defect
 // found so far (fixed or open) and shapes the quick bounds do not reach.
 var CFCorpus = []string{
-	"[Block[Y ForInf[If[Br]]]]",         // unlabelled break under a trailing condition-less for (fixed b36bb55)
-	"[If[Y ForInf[IfElse[Br][E]]]]",     // same, else branch
-	"[Block[If[Y] Sw1[Y]]]",             // yielding switch after a combine, last in block (fixed f205465)
-	"[While[E Sw2[Y][E]]]",              // loop body ending in a yielding switch (fixed 6142ae3)
-	"[ForPostE[E Sw1[Y]]]",              // same with a trivial post
-	"[While[If[Co] Y] Y]",               // continue in monadic loop
-	"[ForPostY[If[Co] E]]",              // continue must not skip a yielding post (open)
-	"[ForPostY[Y If[Co] E]]",            //
-	"[ForNoCond[Y If[Br]]]",             // for init;;post with yield (fixed c6466f5)
-	"[SwNoTag[Y][E] E]",                 // tag-less yielding switch (fixed 6d20e5d)
-	"[Sw2[If[Y]][E]]",                   // case body ending in yielding if (fixed 8b31600)
-	"[TySwBind[Y If[Y]][E]]",            //
-	"[While[Sw2[Y Br][Co]] E]",          // break in switch inside monadic loop, continue from a case
+	"[Block[Y ForInf[If[Br]]]]",     // unlabelled break under a trailing condition-less for (fixed b36bb55)
+	"[If[Y ForInf[IfElse[Br][E]]]]", // same, else branch
+	"[Block[If[Y] Sw1[Y]]]",         // yielding switch after a combine, last in block (fixed f205465)
+	"[While[E Sw2[Y][E]]]",          // loop body ending in a yielding switch (fixed 6142ae3)
+	"[ForPostE[E Sw1[Y]]]",          // same with a trivial post
+	"[While[If[Co] Y] Y]",           // continue in monadic loop
+	"[ForPostY[If[Co] E]]",          // continue must not skip a yielding post (open)
+	"[ForPostY[Y If[Co] E]]",        //
+	"[ForNoCond[Y If[Br]]]",         // for init;;post with yield (fixed c6466f5)
+	"[SwNoTag[Y][E] E]",             // tag-less yielding switch (fixed 6d20e5d)
+	"[Sw2[If[Y]][E]]",               // case body ending in yielding if (fixed 8b31600)
+	"[TySwBind[Y If[Y]][E]]",        //
+	"[While[Sw2[Y Br][Co]] E]",      // break in switch inside monadic loop, continue from a case
 	"[ForInf[Sw2[Y Br][Rt]]]",
 	"[While[Sw2[Y Br][Co] E] E]",        // continue passes through a switch that also has a bound break; the rest of the body is skipped
 	"[ForPostY[Sw3[Y Br][Co][E] E] E]",  //
@@ -92,7 +92,7 @@ func CFFamilies(tier string) []*FamilySpec {
 	// added as they are (not closed under reduction: that would multiply the quick corpus by four)
 	lists = append(lists, jumpContextCorpus(tier)...)
 	lists = append(lists, nestedLoopCorpus()...)
-	fams := []*FamilySpec{genFamily("CF", gen.CFAll, lists), HandFamily("pool", "pool.go.txt"), yexprFamily(tier), condFamily(tier)}
+	fams := []*FamilySpec{genFamily("CF", gen.CFAll, lists), HandFamily("pool", "pool.go.txt"), yexprFamily(tier), condFamily(tier), forClauseFamily(tier), swFormFamily(tier)}
 	return append(fams, ExampleFamilies()...)
 }
 
